@@ -186,7 +186,7 @@ func runC09(p *Prog, r *Report) {
 		if c == nil || c.StaticCallee() == nil || c.StaticCallee().Name() != "PutUint32" {
 			return
 		}
-		la, isLen := lenArg(c.Args[2])
+		la, isLen := lenArg(stripAllConv(c.Args[2]))
 		buf, isSl := c.Args[1].(*ssa.Slice)
 		if !isLen || !isSl {
 			return
